@@ -42,6 +42,7 @@ CAT4 = {
     "pair_pair": [("a", "b"), ("c", "d")],
     "three_way_sep": [("a", "b", "c"), ("a", "b", "d")],
     "mid_first4": [("a", "b"), ("a", "c"), ("b", "d")],
+    "sorted_not_rip": [("a", "c"), ("b", "d"), ("c", "d")],
 }
 CAT5 = {
     "chain5": [("a", "b"), ("b", "c"), ("c", "d"), ("d", "e")],
